@@ -45,6 +45,8 @@ var weights = map[string]int{
 	// paragraph setters
 	"align": 3, "spacing": 3, "indent": 3, "keepnext": 2, "keeplines": 2, "pbb": 2, "widow": 2, "outline": 2, "snap": 2, "pstyle": 2,
 	"hrule": 2, "pborder": 2, "pformat": 4,
+	// multi-valued formatting whose parts are drawn independently (ops/c03_sides.go)
+	"pborder4": 4, "cellpborder4": 2, "cellborders6": 3, "tblborders6": 3, "runfonts": 3, "ptabs": 3, "tcmar": 2, "tblcellmar": 2,
 	// run level
 	"addtext": 6, "ppagebreak": 2, "pbold": 2, "pitalic": 1, "punderline": 2, "pstrike": 1, "phighlight": 2, "pfont": 2, "psize": 2, "pcolor": 2,
 	// tables
@@ -87,11 +89,15 @@ var scenarios = [][]string{
 	{"imagefloat", "para", "image"},
 	{"para", "align", "spacing", "indent", "pstyle"},
 	{"heading", "para", "pagebreak", "table", "margins"},
+	{"para", "pborder4", "ptabs", "runfonts", "indent", "spacing"},
+	{"table", "tblborders6", "cellborders6", "tcmar", "tblcellmar", "cellpborder4"},
 }
 
 func drawOp(t *rapid.T, k string) ops.Op {
 	var o ops.Op
-	if ops.IsExtra(k) {
+	if ops.IsSides(k) {
+		o = cfg.SidesOp(t, k)
+	} else if ops.IsExtra(k) {
 		o = cfg.ExtraOp(t, k)
 	} else {
 		o = cfg.OpOf(t, k)
@@ -172,7 +178,7 @@ func (tr *tracker) aim(t *rapid.T, o *ops.Op) {
 	}
 	switch o.K {
 	case "celltext", "cellpara", "cellftext", "celladdtext", "cellfpara", "celllist", "cellfmt", "cellfmtdir", "cellimg", "cellshading", "celldir", "cellpad",
-		"cellborders", "rmcellborders", "clearcell", "clearcellfmt", "clearcellparas", "unmerge":
+		"cellborders", "rmcellborders", "clearcell", "clearcellfmt", "clearcellparas", "unmerge", "cellpborder4", "cellborders6", "tcmar":
 		o.I[0], o.I[1], o.I[2] = ti, row(), col()
 	case "nested", "nestedh":
 		o.I[0], o.I[1], o.I[2] = ti, row(), col()
@@ -217,7 +223,7 @@ func (tr *tracker) aim(t *rapid.T, o *ops.Op) {
 	case "appcol":
 		o.I[0] = ti
 		tr.tabs[ti].c++
-	case "tblstyle", "tblborders", "tblshading", "altrows", "tblalign", "rmtblborders":
+	case "tblstyle", "tblborders", "tblshading", "altrows", "tblalign", "rmtblborders", "tblborders6", "tblcellmar":
 		o.I[0] = ti
 	}
 }
@@ -263,7 +269,7 @@ func genCase(t *rapid.T) Case {
 
 // inPlaceKinds change existing body elements without adding or removing a top-level one
 // (page-setting kinds do so only when a section element already exists).
-var inPlaceKinds = []string{"addtext", "addtext", "addtext", "ppagebreak", "align", "spacing", "indent", "pformat", "keepnext", "outline", "pstyle", "pborder",
+var inPlaceKinds = []string{"pborder4", "cellpborder4", "cellborders6", "tblborders6", "runfonts", "ptabs", "tcmar", "tblcellmar", "addtext", "addtext", "addtext", "ppagebreak", "align", "spacing", "indent", "pformat", "keepnext", "outline", "pstyle", "pborder",
 	"pbold", "pcolor", "psize", "pfont", "celltext", "celltext", "cellftext", "celladdtext", "cellpara", "cellfmt", "celldir", "cellborders", "cellshading",
 	"mergeh", "mergev", "merger", "rowheight", "rowheader", "insrow", "approw", "delrow", "appcol", "nestedh", "cellimg", "tblborders", "tblalign",
 	"orient", "margins", "pagesize", "docgrid", "difffirst", "imgalign"}
@@ -537,8 +543,8 @@ func opTouches(c Case, id string) bool {
 }
 
 var paraSetters = map[string]bool{"align": true, "spacing": true, "indent": true, "keepnext": true, "keeplines": true, "pbb": true, "widow": true,
-	"outline": true, "snap": true, "pstyle": true, "hrule": true, "pborder": true, "pformat": true}
-var formatSetters = map[string]bool{"fpara": true, "addtext": true, "pbold": true, "pitalic": true, "punderline": true, "pstrike": true, "phighlight": true,
+	"outline": true, "snap": true, "pstyle": true, "hrule": true, "pborder": true, "pformat": true, "pborder4": true, "ptabs": true}
+var formatSetters = map[string]bool{"cellpborder4": true, "cellborders6": true, "tblborders6": true, "runfonts": true, "tcmar": true, "tblcellmar": true, "fpara": true, "addtext": true, "pbold": true, "pitalic": true, "punderline": true, "pstrike": true, "phighlight": true,
 	"pfont": true, "psize": true, "pcolor": true, "cellfmt": true, "cellfmtdir": true, "cellftext": true, "celladdtext": true, "cellfpara": true,
 	"celldir": true, "cellborders": true, "cellshading": true, "tblborders": true, "tblshading": true, "tblstyle": true, "altrows": true, "rowheight": true,
 	"rowheightrange": true, "rowheader": true, "headerrows": true, "rowkeep": true, "tblalign": true, "margins": true, "pagesize": true, "custompage": true,
@@ -546,13 +552,15 @@ var formatSetters = map[string]bool{"fpara": true, "addtext": true, "pbold": tru
 
 var paraTarget = map[string]bool{"align": true, "spacing": true, "indent": true, "keepnext": true, "keeplines": true, "pbb": true, "widow": true, "outline": true,
 	"snap": true, "pstyle": true, "hrule": true, "pborder": true, "pformat": true, "addtext": true, "ppagebreak": true, "pbold": true, "pitalic": true, "punderline": true,
-	"pstrike": true, "phighlight": true, "pfont": true, "psize": true, "pcolor": true, "inlinemath": true, "rmpara": true}
+	"pstrike": true, "phighlight": true, "pfont": true, "psize": true, "pcolor": true, "inlinemath": true, "rmpara": true,
+	"pborder4": true, "runfonts": true, "ptabs": true}
 var imageTarget = map[string]bool{"imgalt": true, "imgtitle": true, "imgalign": true}
 var tableTarget = map[string]bool{"celltext": true, "cellpara": true, "cellftext": true, "celladdtext": true, "cellfpara": true, "celllist": true, "cellfmt": true,
 	"cellfmtdir": true, "cellimg": true, "cellshading": true, "celldir": true, "cellpad": true, "cellborders": true, "rmcellborders": true, "clearcell": true,
 	"clearcellfmt": true, "clearcellparas": true, "unmerge": true, "nested": true, "nestedh": true, "mergeh": true, "mergev": true, "merger": true, "rowheight": true,
 	"rowheader": true, "rowkeep": true, "delrow": true, "insrow": true, "approw": true, "headerrows": true, "rowheightrange": true, "delcol": true, "inscol": true,
-	"appcol": true, "tblstyle": true, "tblborders": true, "tblshading": true, "altrows": true, "tblalign": true, "rmtblborders": true}
+	"appcol": true, "tblstyle": true, "tblborders": true, "tblshading": true, "altrows": true, "tblalign": true, "rmtblborders": true,
+	"cellpborder4": true, "cellborders6": true, "tblborders6": true, "tcmar": true, "tblcellmar": true}
 
 // hasTarget: the op has an object to act on (an op without one is a no-op of the interpreter, not an API call).
 func hasTarget(x *ops.Exec, k string) bool {
@@ -585,7 +593,9 @@ func run(c Case) *kit.Result {
 		var err error
 		target := hasTarget(x, op.K)
 		p, _ := kit.Try(func() {
-			if ops.IsExtra(op.K) {
+			if ops.IsSides(op.K) {
+				err = x.DoSides(op)
+			} else if ops.IsExtra(op.K) {
 				err = x.DoExtra(op)
 			} else {
 				err = x.Do(op)
@@ -604,6 +614,16 @@ func run(c Case) *kit.Result {
 			e = "err"
 		} else if target {
 			okKinds[op.K] = true
+			if ops.IsSides(op.K) {
+				// parts that differ from each other: the only inputs on which a confusion of the parts can show
+				if n := ops.DistinctSides(op); n >= 2 {
+					res.Label("parts-differ:" + op.K)
+					res.Label("parts-differ")
+					if n >= 3 {
+						res.Label("parts-differ>=3")
+					}
+				}
+			}
 		} else {
 			e = "noop"
 		}
@@ -939,6 +959,7 @@ func TestC03(t *testing.T) {
 	kit.Main(t, kit.Spec[Case]{
 		ID: "C03", Level: "exploration",
 		Rule: "document built by 8-30 (thorough 8-50) generated API calls (paragraph/run/table/picture/section setters with their argument ranges, XML-expressible text) " +
+			"including multi-valued formatting whose parts are drawn independently of each other (paragraph/cell/table borders per side incl. diagonals and insideH/insideV with own presence, style, size, colour, spacing; cell and table margins per side; run fonts per script; tab stop lists; indentation, spacing and page margins per component), " +
 			"optionally preceded by a scenario prefix, with 0-3 intermediate saves of the live document at arbitrary positions and (1 case in 3) a tail of one more save followed by 1-5 edits of existing elements, then 1-4 save/open cycles through memory or a file; non-trivial = (>=3 kinds of body children or a merged/nested table) " +
 			"and >=2 distinct successful formatting setters and >=2 cycles; distinct = distinct set of (op kind, outcome) plus cycle count",
 		Gen: genCase, Run: run, Findings: findings,
@@ -946,10 +967,13 @@ func TestC03(t *testing.T) {
 			"text arguments are restricted to what XML 1.0 can carry (other characters are replaced by the encoder, which is outside 'what the library can express')",
 			"the main part is compared through the harness's canonical XML reader; absent == empty only for w:pPr/w:rPr/w:tcPr/w:trPr/w:tblPr, xml:space ignored on empty w:t, namespace declarations ignored",
 			"a history in which an API call panics, or whose first save fails, is discarded (judged by C09/C01/C05)",
+			"run fonts per script, tab stop lists and cell/table margins per side have no setter: they are built through the exported struct fields (RunProperties.FontFamily, ParagraphProperties.Tabs, TableCellProperties.TcMar, TableProperties.TableCellMar), as the library's own builders and examples do",
 		},
 		MustSee: map[string]float64{"feat:nested-table": 0.08, "feat:run-break": 0.1, "feat:floating-picture": 0.1, "cycles>=3": 0.3, "feat:merge-h": 0.08, "feat:merge-v": 0.05,
 			"op:align": 0.05, "op:spacing": 0.05, "op:indent": 0.05, "op:keepnext": 0.03, "op:keeplines": 0.03, "op:pbb": 0.03, "op:widow": 0.03, "op:outline": 0.03,
-			"intermediate-save": 0.4, "save-then-inplace-edit": 0.15, "op:snap": 0.03, "op:pstyle": 0.03, "op:pborder": 0.03, "op:pformat": 0.05, "feat:edge-whitespace-text": 0.2, "feat:non-ascii-text": 0.2},
+			"intermediate-save": 0.4, "save-then-inplace-edit": 0.15, "op:snap": 0.03, "op:pstyle": 0.03, "op:pborder": 0.03, "op:pformat": 0.05, "feat:edge-whitespace-text": 0.2, "feat:non-ascii-text": 0.2,
+			"parts-differ": 0.3, "parts-differ:pborder4": 0.08, "parts-differ:cellborders6": 0.04, "parts-differ:tblborders6": 0.04, "parts-differ:ptabs": 0.05, "parts-differ:runfonts": 0.04,
+			"parts-differ:tcmar": 0.02, "parts-differ:tblcellmar": 0.03, "parts-differ:cellpborder4": 0.02},
 		Fixed: fixedCases,
 	})
 }
